@@ -125,4 +125,18 @@ def run(ctx):
             do_case(ctx, {"ast": a, "prio": prio})
         else:
             a, o, t = gen_valid(rng, ctx.quick, prefix_p=0.15, empty_p=0.04)
+            if rng.random() < 0.3:
+                # negations pushed inwards over several anonymous compounds (Not / Imply / XNor nests): the children of
+                # such nodes are held in the order of their ids BEFORE the negation
+                from props.c02 import gen_negnest
+                for _ in range(20):
+                    b = gen_negnest(rng, rng.randint(2, 4), list("abcde")[:rng.randint(2, 5)])
+                    if b["c"] == "str": continue
+                    try:
+                        ob = build(b)
+                        if is_var(ob) or not well_formed(snap(ob)) or ob.errors(): continue
+                    except Exception:
+                        continue
+                    a = b; ctx.tags["negation-nest-stream"] += 1
+                    break
             do_case(ctx, {"ast": a})
